@@ -9,6 +9,22 @@ import cm "zombiezen.com/go/commonmark"
 var inputClasses = map[string]func(input []byte) bool{
 	"atx-backslash-before-trailing-space": atxBackslashBeforeTrailingSpace,
 	"setext-heading-root-after-definition": setextRootAfterDefinition,
+	"root-block-above-streaming-limit":     rootAboveStreamingLimit,
+}
+
+// rootAboveStreamingLimit: some root block of the in-memory parse is (within one read chunk of) the streaming
+// parser's block-size limit of 1 MiB — the only inputs on which readline's "block too large" branch is reachable.
+func rootAboveStreamingLimit(doc []byte) bool {
+	if len(doc) < 1<<20-3*8192 {
+		return false
+	}
+	res := parseMem(doc)
+	for _, r := range res.roots {
+		if len(r.Source) >= 1<<20-3*8192 {
+			return true
+		}
+	}
+	return false
 }
 
 // setextRootAfterDefinition: some root is a setext heading that starts exactly where a preceding
